@@ -198,9 +198,8 @@ if __name__ == "__main__":
     KNOWN = [k for k in ctx.known if k.get("property") == "C09" and k.get("status") == "finding"]
     ctx.assumptions = [
         "clock advances are non-negative whole seconds and finite TTLs whole seconds (the datastore-backed book stores expiries as unix seconds); total clock advance below ConnectedAddrTTL (292 years) — the only hypothesis of the pstoremem theorems (clock_ok)",
-        "the pstoreds theorems (c09_ds_refines_spec, c09_ds_trace_holds, c09_mem_ds_equivalent, c09_ds_bounded_after_gc) hold under ds_ok: whole-second non-negative clock steps staying one second below ConnectedAddrTTL; every TTL <= 0, whole seconds or >= ConnectedAddrTTL; no transport address named twice in a positive-TTL AddAddrs/SetAddrs/ConsumePeerRecord batch; seq >= 0; lookahead interval >= 0 (each clause shown necessary by a witness)",
+        "the pstoreds theorems (c09_ds_refines_spec, c09_ds_trace_holds, c09_mem_ds_equivalent, c09_ds_bounded_after_gc) hold under ds_ok: whole-second non-negative clock steps staying one second below ConnectedAddrTTL; every TTL <= 0, whole seconds or >= ConnectedAddrTTL; seq >= 0; lookahead interval >= 0 (each clause shown necessary by a witness)",
         "theorems are about the books whose caps never bind (default caps on small universes / caps disabled); histories with binding caps are generated but judged by the weak monitor only (soundness + bound), because eviction ties depend on Go map order",
-        "a batch does not name the same address twice",
         "container/heap ordering abstracted: PopIfExpired pops every heap entry with expiry <= now; sort.Slice = a correct sort; go-datastore map store and the ARC cache (never evicting: cache disabled or larger than the universe) behave as maps",
         "signed records: envelopes are real (ed25519, record.Seal); a record is identified by (peer, seq, address list)",
         "each book method is one critical section (mutexes not modelled); AddrStream not covered",
@@ -215,7 +214,7 @@ if __name__ == "__main__":
         nontrivial=nontrivial,
         rule="fixed corpus (repaired-defect witnesses, open-finding witnesses, exactly-at-expiry, class transitions, record life cycle, "
              "/p2p suffixes, reopen) on 5 store configurations, then seeded random histories over 1-3 peers x 2-5 addresses x TTLs "
-             "{-1,0,10s,2m,15m,30m,1h,connected,permanent}: AddAddr(s)/SetAddr(s) batches of 1-4 with own/foreign /p2p suffixes, UpdateAddrs between "
+             "{-1,0,10s,2m,15m,30m,1h,connected,permanent}: AddAddr(s)/SetAddr(s)/record batches of 1-4 with own/foreign /p2p suffixes, one in five naming an address twice (plainly, or once with /p2p/<self>), UpdateAddrs between "
              "classes, ClearAddrs, ConsumePeerRecord with real sealed envelopes (lower/equal/higher seq, empty, wrong signer), clock advances "
              "(exactly TTL, TTL-1, small, 0), GC runs, close/reopen; every history is run on pstoremem and on pstoreds (cache 0 / >0, full-purge / "
              "lookahead GC), one in five with binding caps; plus reopen inserted after every (3rd) prefix. Every answer is compared with the "
